@@ -1054,7 +1054,7 @@ class Environments(collections.abc.Sequence, Sequence[Environment]):
         Returns:
             An Environments object.
         """
-        if isinstance(rewards_type,str): rewards_type = [rewards_type]
+        if rewards_type is None or isinstance(rewards_type,str): rewards_type = [rewards_type]
         return self.filter([OpeRewards(r) for r in rewards_type])
 
     def save(self, path: str, processes:int=1, overwrite:bool=False) -> 'Environments':
